@@ -1,4 +1,4 @@
-import GomlVerif.Lemmas.GoCompStepV
+import GomlVerif.Lemmas.GoCompStepG
 /-!
 The arms of a `match` against what `compile_match_branches` makes of them: the clauses of a type
 switch (enum scrutinee), the cases of a value switch (bool / integer / string scrutinee), the first
